@@ -98,10 +98,12 @@ class MetaRunner(object):
             # we only unqueue payloads *while* watching runners as payloads could
             # cause the runners to fail – we need to stop unqueueing them as well.
             await asyncio.gather(*runner_tasks, self._unqueue_payloads())
-        except KeyboardInterrupt:
-            # KeyboardInterrupt in a runner task immediately kills the event loop.
+        except (KeyboardInterrupt, SystemExit):
+            # KeyboardInterrupt/SystemExit in a runner task immediately kills the event
+            # loop and propagates out of `asyncio.run` by itself.
             # When we get resurrected, the exception has already been handled!
-            # Just clean up...
+            # Just clean up; re-raising here would abort the cleanup of `asyncio.run`
+            # before the runner threads (trio) have finished.
             await asyncio.shield(self._aclose_runners(runner_tasks))
         except BaseException:
             await asyncio.shield(self._aclose_runners(runner_tasks))
